@@ -715,3 +715,40 @@ class Repo:
 
 def load_repo(root: str | os.PathLike = "/repo") -> Repo:
     return Repo(root)
+
+
+# --------------------------------------------------------------------------- #
+# name-insensitive text of expressions (rules must not depend on local names)
+# --------------------------------------------------------------------------- #
+
+
+class _Renamer(ast.NodeTransformer):
+    def __init__(self, mapping, default=None, keep=()):
+        self.mapping, self.default, self.keep = mapping, default, set(keep)
+
+    def visit_Name(self, node):
+        if node.id in self.mapping:
+            return ast.copy_location(ast.Name(id=self.mapping[node.id], ctx=node.ctx), node)
+        if self.default is not None and node.id not in self.keep:
+            import builtins
+
+            if not hasattr(builtins, node.id):
+                return ast.copy_location(ast.Name(id=self.default, ctx=node.ctx), node)
+        return node
+
+
+def alpha(node: ast.AST | None, mapping: dict[str, str] | None = None, default: str | None = None, keep=("self", "cls"), limit: int = 200) -> str:
+    """normalised text of `node` with local names replaced: names in `mapping` by their
+    image; if `default` is given every other non-builtin name (except `keep`) by it."""
+    if node is None:
+        return ""
+    import copy
+
+    n2 = _Renamer(mapping or {}, default, keep).visit(copy.deepcopy(node))
+    return norm(n2, limit)
+
+
+def shape(node: ast.AST | None, limit: int = 200) -> str:
+    """text of `node` with every local/global variable name replaced by `_` (attribute
+    names, constants, builtins and self/cls kept): stable under renaming of variables."""
+    return alpha(node, {}, "_", limit=limit)
